@@ -138,4 +138,71 @@ theorem erase_schemaToDocA_eq (s : SchemaD) (c : SdlPrintTA.OptsA) (apps : Apps)
     (SdlPrintTA.schemaToDocA s c apps).map SdlPrintTA.eraseCustom = schemaToDoc s := by
   rw [erase_schemaToDocA, hb]; rfl
 
+
+
+/-! ### the option off: the directive printer IS the directive-free printer -/
+
+section
+variable {c : SdlPrintTA.OptsA} (hc : c.custom = false)
+include hc
+
+theorem printDirectives_off (apps : Apps) (path : String) : SdlPrintTA.printDirectives c apps path = [] := by
+  simp [SdlPrintTA.printDirectives, SdlPrintTA.nodesAt, hc]
+
+theorem printInputValueA_off (s : SchemaD) (apps : Apps) (path : String) (a : ArgD) :
+    SdlPrintTA.printInputValue s c apps path a = SdlPrintT.printInputValue s a := by
+  simp only [SdlPrintTA.printInputValue, SdlPrintT.printInputValue, printDirectives_off hc, List.append_nil]
+
+theorem printArgsA_off (s : SchemaD) (apps : Apps) (path : String) (depth : Nat) (multi : Bool) : ∀ (l : List ArgD) (i : Nat),
+    SdlPrintTA.printArgs s c apps path depth multi i l = SdlPrintT.printArgs s c.base depth multi i l
+  | [], _ => rfl
+  | a :: as, i => by simp only [SdlPrintTA.printArgs, SdlPrintT.printArgs, printInputValueA_off hc, printArgsA_off s apps path depth multi as]
+
+theorem printArgumentsA_off (s : SchemaD) (apps : Apps) (path : String) (args : List ArgD) (depth : Nat) :
+    SdlPrintTA.printArguments s c apps path args depth = SdlPrintT.printArguments s c.base args depth := by
+  simp only [SdlPrintTA.printArguments, SdlPrintT.printArguments, printArgsA_off hc]
+
+theorem printFieldsA_off (s : SchemaD) (apps : Apps) (tname : String) : ∀ (l : List FieldD) (i : Nat),
+    SdlPrintTA.printFields s c apps tname i l = SdlPrintT.printFields s c.base i l
+  | [], _ => rfl
+  | f :: fs, i => by
+    simp only [SdlPrintTA.printFields, SdlPrintT.printFields, SdlPrintTA.printField, SdlPrintT.printField, printArgumentsA_off hc,
+      printDirectives_off hc, List.append_nil, printFieldsA_off s apps tname fs]
+
+theorem printEnumValuesA_off (apps : Apps) (tname : String) : ∀ (l : List EnumValD) (i : Nat),
+    SdlPrintTA.printEnumValues c apps tname i l = SdlPrintT.printEnumValues c.base i l
+  | [], _ => rfl
+  | v :: vs, i => by
+    simp only [SdlPrintTA.printEnumValues, SdlPrintT.printEnumValues, SdlPrintTA.printEnumValue, SdlPrintT.printEnumValue,
+      printDirectives_off hc, List.append_nil, printEnumValuesA_off apps tname vs]
+
+theorem printInputFieldsA_off (s : SchemaD) (apps : Apps) (tname : String) : ∀ (l : List ArgD) (i : Nat),
+    SdlPrintTA.printInputFields s c apps tname i l = SdlPrintT.printInputFields s c.base i l
+  | [], _ => rfl
+  | f :: fs, i => by
+    simp only [SdlPrintTA.printInputFields, SdlPrintT.printInputFields, SdlPrintTA.printInputField, SdlPrintT.printInputField,
+      printInputValueA_off hc, printInputFieldsA_off s apps tname fs]
+
+theorem printTypeA_off (s : SchemaD) (apps : Apps) (t : TypeD) : SdlPrintTA.printType s c apps t = SdlPrintT.printType s c.base t := by
+  simp only [SdlPrintTA.printType, SdlPrintT.printType, printDirectives_off hc, List.append_nil, printFieldsA_off hc,
+    printEnumValuesA_off hc, printInputFieldsA_off hc]
+  cases t.kind <;> simp
+
+theorem printDirectiveDefinitionA_off (s : SchemaD) (apps : Apps) (d : DirectiveD) :
+    SdlPrintTA.printDirectiveDefinition s c apps d = SdlPrintT.printDirectiveDefinition s c.base d := by
+  simp only [SdlPrintTA.printDirectiveDefinition, SdlPrintT.printDirectiveDefinition, printArgumentsA_off hc]
+
+/-- with a falsy `include_custom_schema_directives` the model with directives prints what `printSchemaT` prints -/
+theorem printSchemaTA_off (s : SchemaD) (apps : Apps) : SdlPrintTA.printSchemaTA c s apps = SdlPrintT.printSchemaT c.base s := by
+  have e1 : SdlPrintTA.printSchemaDefinition s c apps = SdlPrintT.printSchemaDefinition c.base s := by
+    simp [SdlPrintTA.printSchemaDefinition, SdlPrintT.printSchemaDefinition, SdlPrintTA.needsSchemaBlockA, SdlPrintTA.nodesAt, hc,
+      printDirectives_off hc]
+  have e2 : SdlPrintTA.printDirectiveDefinition s c apps = SdlPrintT.printDirectiveDefinition s c.base := by
+    funext d; exact printDirectiveDefinitionA_off hc s apps d
+  have e3 : SdlPrintTA.printType s c apps = SdlPrintT.printType s c.base := by
+    funext t; exact printTypeA_off hc s apps t
+  simp only [SdlPrintTA.printSchemaTA, SdlPrintT.printSchemaT, e1, e2, e3]
+
+end
+
 end PyGql.SdlText
